@@ -239,6 +239,47 @@ theorem node_harness_ops_present :
       (fullNodeTable.lookup n).map (fun p => p.any (fun ev => match ev with | .acq .pool _ => true | _ => false)) = some true) := by
   decide +kernel
 
+/-- **An api call is not one view.**  For every entry point of the node's public api objects
+(`api/src/{foreign,owner}.rs`, with the handlers, `api/src/types.rs` printable constructors and the chain ops
+they call inlined): the number of separate holds of `header_pmmr` / `txhashset` it takes = the number of views of
+the chain state it combines (an upper bound: alternatives are emitted one after the other).  In particular
+`get_unspent_outputs` = the listing under ONE hold + one look-up per listed output under a hold of its own
+(`OutputPrintable::from_output` -> `Chain::get_unspent`; + the Merkle-proof extension when asked for): the position
+it prints for an output may belong to a later committed state than the listing - why the paging oracle of the runs
+`torn` / `node` judges a page call against committed states per ITEM, and accepts a repeated (commitment, position)
+in a page sequence when the head moved (false alarm of increment 5, repaired).  The single-hold and lock-free
+entries (`get_tip`, the pool sizes, `validate_chain`, `reset_chain_head` …) are one view.  A change that makes an
+entry combine more (or fewer) views breaks the theorem. -/
+theorem api_entry_views :
+    ∀ nk ∈ [("api::Foreign::get_header", 7),
+       ("api::Foreign::get_block", 9),
+       ("api::Foreign::get_blocks", 9),
+       ("api::Foreign::get_version", 0),
+       ("api::Foreign::get_tip", 0),
+       ("api::Foreign::get_kernel", 4),
+       ("api::Foreign::get_outputs", 8),
+       ("api::Foreign::get_unspent_outputs", 3),
+       ("api::Foreign::get_pmmr_indices", 2),
+       ("api::Foreign::get_pool_size", 0),
+       ("api::Foreign::get_stempool_size", 0),
+       ("api::Foreign::get_unconfirmed_transactions", 0),
+       ("api::Foreign::push_transaction", 10),
+       ("api::Owner::get_status", 0),
+       ("api::Owner::validate_chain", 1),
+       ("api::Owner::compact_chain", 2),
+       ("api::Owner::reset_chain_head", 1),
+       ("api::Owner::invalidate_header", 0),
+       ("api::Owner::get_peers", 0),
+       ("api::Owner::get_connected_peers", 0),
+       ("api::Owner::ban_peer", 0),
+       ("api::Owner::unban_peer", 0)],
+      (fullNodeTable.lookup nk.1).map nodeHolds = some nk.2 := by
+  decide +kernel
+
+/-- the hold counter sees what it should -/
+example : nodeHolds [.acq (.chain .ts) .R, .rel (.chain .ts), .acq .pool .R, .acq (.chain .hp) .R, .acq (.chain .ts) .R,
+    .rel (.chain .ts), .rel (.chain .hp), .rel .pool] = 2 := by decide
+
 /-- the table is not trivial: more than 100 acquisitions of node-level locks -/
 example : ((fullNodeTable.flatMap (·.2)).filter (fun ev => match ev with
     | .acq (.chain _) _ => false | .acq _ _ => true | _ => false)).length ≥ 100 := by decide +kernel
